@@ -66,6 +66,30 @@ pub fn lockchild_main(dir: &str, cfgline: &str, start_us: &str, hold_ms: &str, h
             println!("WIN {} {}", t0, t1);
             std::io::stdout().flush().ok();
             let mut rng = Rng::new(t1 as u64);
+            if how == "unwind" {
+                // a commit that FAILS early (the 64-bucket hash table cannot take the pages) while the
+                // value store still has tens of megabytes of page writes queued; the owner then
+                // panics, the panic is caught: the handle is gone, the process lives on
+                let prev = std::panic::take_hook();
+                std::panic::set_hook(Box::new(|_| {}));
+                let r = std::panic::catch_unwind(std::panic::AssertUnwindSafe(move || {
+                    let sess = db.begin_session(SessionParams::default());
+                    let mut b: Vec<(Key, KeyReadWrite)> = (0..400).map(|i| (rng.key(), KeyReadWrite::Write(Some(value_bytes(100_000, i as u64))))).collect();
+                    b.sort_by(|a, b| a.0.cmp(&b.0));
+                    let res = sess.finish(b).and_then(|f| f.commit(&db));
+                    println!("UNWIND commit={}", if res.is_ok() { "ok" } else { "err" });
+                    std::io::stdout().flush().ok();
+                    if res.is_err() {
+                        panic!("{}", "the owner of the handle gives up");
+                    }
+                    drop(db);
+                }));
+                std::panic::set_hook(prev);
+                println!("UNWOUND {} panicked={}", now_us(), r.is_err() as u8);
+                std::io::stdout().flush().ok();
+                std::thread::sleep(Duration::from_millis(400));
+                return 0;
+            }
             let c = commit_some(&db, &mut rng, 5);
             std::thread::sleep(Duration::from_millis(hold_ms.parse().unwrap()));
             match how {
@@ -168,15 +192,117 @@ fn prepare_existing(dir: &Path, cfg: &Cfg, rng: &mut Rng) {
     drop(db);
 }
 
+/// number of threads of this process whose name is `name` (the I/O workers of a handle are named
+/// "io-worker"; a handle joins them before it lets go of the directory lock)
+fn threads_named(name: &str) -> usize {
+    let mut n = 0;
+    if let Ok(rd) = std::fs::read_dir("/proc/self/task") {
+        for e in rd.filter_map(|e| e.ok()) {
+            if let Ok(c) = std::fs::read_to_string(e.path().join("comm")) {
+                if c.trim() == name {
+                    n += 1;
+                }
+            }
+        }
+    }
+    n
+}
+
+/// A handle that ends inside this process - dropped normally, or by a panic that unwinds through its
+/// owner - must have stopped its background I/O workers by the time it is gone: none of them may be
+/// left, and the directory opens again at once.
+fn run_ending_in_process(rng: &mut Rng, dir: &PathBuf, cfg: &Cfg, out: &mut LockOut) {
+    std::fs::create_dir_all(dir).unwrap();
+    prepare_existing(dir, cfg, rng);
+    for by_panic in [false, true] {
+        let base = threads_named("io-worker");
+        let mut r2 = rng.fork();
+        let (d2, c2) = (dir.clone(), cfg.clone());
+        let prev = std::panic::take_hook();
+        std::panic::set_hook(Box::new(|_| {}));
+        let res = std::panic::catch_unwind(std::panic::AssertUnwindSafe(move || {
+            let db = Nomt::<H>::open(c2.options(&d2)).expect("open");
+            let during = threads_named("io-worker");
+            commit_some(&db, &mut r2, 30).unwrap();
+            if by_panic {
+                panic!("the owner of the handle panics");
+            }
+            drop(db);
+            during
+        }));
+        std::panic::set_hook(prev);
+        // a store can outlive its handle by a few milliseconds (a background thread of the handle may hold
+        // the last reference: the known finding of this property); workers that are still there after
+        // two seconds are not going to finish
+        let mut after = threads_named("io-worker");
+        let t0 = std::time::Instant::now();
+        while after > base && t0.elapsed() < Duration::from_secs(2) {
+            std::thread::sleep(Duration::from_millis(20));
+            after = threads_named("io-worker");
+        }
+        *out.stats.entry(if by_panic { "end-in-process-panic".to_string() } else { "end-in-process-drop".to_string() }).or_default() += 1;
+        if res.is_ok() == by_panic {
+            out.violations.push(("harness".into(), format!("in-process ending: unexpected outcome (panic expected: {})", by_panic), String::new()));
+        }
+        if after > base {
+            out.violations.push((
+                "c20-io-workers-outlive-handle".into(),
+                format!("{} I/O worker thread(s) of a handle that ended by {} are still alive two seconds after the handle is gone (before the open: {}, after: {}): background writers of the old handle have not finished", after - base, if by_panic { "an unwinding panic" } else { "drop" }, base, after),
+                format!("cfg {}", cfg.to_line()),
+            ));
+        }
+        match Nomt::<H>::open(cfg.options(dir)) {
+            Ok(db) => {
+                out.nontrivial += 1;
+                drop(db);
+            }
+            Err(e) => out.violations.push(("c20-reopen-after-in-process-ending".into(), format!("the directory cannot be opened after its handle ended by {}: {:#}", if by_panic { "a panic" } else { "drop" }, e), format!("cfg {}", cfg.to_line()))),
+        }
+    }
+}
+
 pub fn run_lock_case(rng: &mut Rng, idx: usize, out: &mut LockOut) {
     let mut cfg = gen_cfg(rng);
     cfg.ht = 1024;
     cfg.rollback = rng.chance(1, 2);
-    let kind = idx % 6;
+    let kind = idx % 8;
     let dir = fresh_dir(&format!("lock-{}", idx));
     let bump = |o: &mut LockOut, k: &str| *o.stats.entry(k.to_string()).or_default() += 1;
     out.cases += 1;
     match kind {
+        6 => run_ending_in_process(rng, &dir, &cfg, out),
+        7 => {
+            // the handle ends by a CAUGHT panic right after a commit that failed early with page writes
+            // still queued: nothing may be written to the store files after the directory lock is let go
+            let mut c2 = cfg.clone();
+            c2.ht = 64;
+            c2.rollback = false;
+            let kids = spawn_children(&dir, &c2, 1, 0, &["unwind"], &[], &format!("{}", idx));
+            let k = &kids[0];
+            bump(out, "end-caught-panic-with-queued-writes");
+            if !k.out.contains("UNWOUND") {
+                out.violations.push(("c20-child".into(), format!("the holder did not finish: {:?} {}", k.code, k.out.replace('\n', " | ")), String::new()));
+            } else if k.out.contains("commit=err") {
+                let unlock = k.events.iter().rposition(|e| e.kind == "K" && e.path == ".lock");
+                match unlock {
+                    None => out.violations.push(("c20-child".into(), "the holder's trace has no close of the lock file".into(), String::new())),
+                    Some(u) => {
+                        let late: Vec<String> = k.events[u + 1..].iter().filter(|e| ["W", "UW", "T", "A"].contains(&e.kind.as_str()) && e.path != ".lock").map(|e| format!("{} {} {}", e.kind, e.path, e.off)).collect();
+                        let before = k.events[..u].iter().filter(|e| e.kind == "UW").count();
+                        bump(out, if before > 0 { "end-caught-panic-page-writes-before-unlock" } else { "end-caught-panic-no-page-writes" });
+                        if !late.is_empty() {
+                            out.violations.push((
+                                "c20-writes-after-lock-release".into(),
+                                format!("a handle that ended by a caught panic after a failed commit let go of the directory lock while its background writers were still at work: {} write event(s) on the store files AFTER the lock file was closed, the first: {:?}", late.len(), &late[..late.len().min(3)]),
+                                format!("cfg {}", c2.to_line()),
+                            ));
+                        } else {
+                            out.nontrivial += 1;
+                        }
+                    }
+                }
+            }
+        }
         0 => {
             // in-process: second open while the first is alive, then reopen after drop
             std::fs::create_dir_all(&dir).unwrap();
